@@ -1,312 +1,21 @@
 package main
 
 import (
-	"fmt"
-	"sort"
 	"strings"
 
 	"k8s.io/gengo/examples/set-gen/sets"
 	"verif/common"
+	"verif/common/setrun"
 )
 
 // ---- C17: the generated set types ----
 
-// setI is the method set of a generated set type S with element type K.
-type setI[K comparable, S any] interface {
-	~map[K]sets.Empty
-	Insert(items ...K) S
-	Delete(items ...K) S
-	Has(item K) bool
-	HasAll(items ...K) bool
-	HasAny(items ...K) bool
-	Clone() S
-	Difference(s2 S) S
-	SymmetricDifference(s2 S) S
-	Union(s2 S) S
-	Intersection(s2 S) S
-	IsSuperset(s2 S) bool
-	Equal(s2 S) bool
-	List() []K
-	UnsortedList() []K
-	PopAny() (K, bool)
-	Len() int
-}
+type setOps = setrun.Ops
 
-type setOps struct {
-	// run executes the history on fresh sets of the concrete type and returns outputs and failures
-	run func(lines []string) ([]string, []common.Failure)
-}
+func parseSetKeys(s string) []int { return setrun.ParseSetKeys(s) }
 
-func parseSetKeys(s string) []int {
-	if s == "-" {
-		return nil
-	}
-	var out []int
-	for _, p := range strings.Split(s, ";") {
-		out = append(out, common.Atoi(p))
-	}
-	return out
-}
-
-func showSetKeys(ks []int) string {
-	if len(ks) == 0 {
-		return "-"
-	}
-	sort.Ints(ks)
-	s := make([]string, len(ks))
-	for i, k := range ks {
-		s[i] = common.Itoa(k)
-	}
-	return strings.Join(s, ";")
-}
-
-// reference implementation: sorted int slices without duplicates
-type refSet []int
-
-func refOf(ks []int) refSet {
-	m := map[int]bool{}
-	for _, k := range ks {
-		m[k] = true
-	}
-	var out refSet
-	for k := range m {
-		out = append(out, k)
-	}
-	sort.Ints(out)
-	return out
-}
-func (r refSet) has(k int) bool {
-	for _, x := range r {
-		if x == k {
-			return true
-		}
-	}
-	return false
-}
-func (r refSet) String() string { return showSetKeys(append([]int(nil), r...)) }
-
-func makeSetOps[K comparable, S setI[K, S]](newSet func(items ...K) S, fromKey func(int) K, toKey func(K) int, less func(a, b K) bool) setOps {
-	conv := func(ks []int) []K {
-		out := make([]K, len(ks))
-		for i, k := range ks {
-			out[i] = fromKey(k)
-		}
-		return out
-	}
-	keysOf := func(s S) []int {
-		var out []int
-		for k := range s {
-			out = append(out, toKey(k))
-		}
-		return out
-	}
-	return setOps{run: func(lines []string) ([]string, []common.Failure) {
-		outs := make([]string, len(lines))
-		var fails []common.Failure
-		var heap []S
-		var ref []refSet
-		fail := func(sig, what string) { fails = append(fails, common.Failure{Sig: sig, What: what}) }
-		dump := func() string {
-			parts := make([]string, len(heap))
-			for i, s := range heap {
-				parts[i] = "{" + showSetKeys(keysOf(s)) + "}"
-			}
-			return strings.Join(parts, " ")
-		}
-		checkRef := func(op string) {
-			for i := range heap {
-				if got := showSetKeys(keysOf(heap[i])); got != ref[i].String() {
-					fail("set-semantics", fmt.Sprintf("after %s set %d holds {%s}, set theory says {%s}", op, i, got, ref[i]))
-				}
-			}
-		}
-		for idx, l := range lines {
-			f := common.Fields(l)
-			func() {
-				defer func() {
-					if r := recover(); r != nil {
-						outs[idx] = "panic"
-						fail("panic", fmt.Sprintf("%s panics: %v", common.Readable(l), r))
-					}
-				}()
-				res := "-"
-				alloc := func(s S, r refSet) {
-					heap = append(heap, s)
-					ref = append(ref, r)
-					res = common.Itoa(len(heap) - 1)
-				}
-				b := func(x bool) string { return common.B01(x) }
-				switch f[1] {
-				case "reset":
-					heap, ref = nil, nil
-				case "new":
-					ks := parseSetKeys(f[2])
-					alloc(newSet(conv(ks)...), refOf(ks))
-				case "clone":
-					i := common.Atoi(f[2])
-					alloc(heap[i].Clone(), append(refSet(nil), ref[i]...))
-				case "list":
-					i := common.Atoi(f[2])
-					lst := heap[i].List()
-					ks := make([]string, len(lst))
-					for j, k := range lst {
-						ks[j] = common.Itoa(toKey(k))
-						if j > 0 && !less(lst[j-1], k) {
-							fail("list-not-ascending", fmt.Sprintf("List() = %v is not strictly ascending", lst))
-						}
-					}
-					if len(lst) != len(ref[i]) {
-						fail("list-incomplete", fmt.Sprintf("List() has %d entries for a set of %d", len(lst), len(ref[i])))
-					}
-					res = "-"
-					if len(ks) > 0 {
-						res = strings.Join(ks, ";")
-					}
-					un := heap[i].UnsortedList()
-					var uk []int
-					for _, k := range un {
-						uk = append(uk, toKey(k))
-					}
-					if showSetKeys(uk) != ref[i].String() || len(un) != len(ref[i]) {
-						fail("unsortedlist", fmt.Sprintf("UnsortedList() = %v for {%s}", un, ref[i]))
-					}
-				case "len":
-					i := common.Atoi(f[2])
-					res = common.Itoa(heap[i].Len())
-					if heap[i].Len() != len(ref[i]) {
-						fail("len", fmt.Sprintf("Len() = %d for {%s}", heap[i].Len(), ref[i]))
-					}
-				case "popany":
-					i := common.Atoi(f[2])
-					k, ok := heap[i].PopAny()
-					if !ok {
-						res = "none"
-						if len(ref[i]) != 0 {
-							fail("popany", "PopAny reports an empty set for a non-empty one")
-						}
-					} else {
-						res = common.Itoa(toKey(k))
-						if !ref[i].has(toKey(k)) {
-							fail("popany", fmt.Sprintf("PopAny returned %v, not a member of {%s}", k, ref[i]))
-						}
-						var nr refSet
-						for _, x := range ref[i] {
-							if x != toKey(k) {
-								nr = append(nr, x)
-							}
-						}
-						ref[i] = nr
-					}
-				case "insert", "delete":
-					i := common.Atoi(f[2])
-					ks := parseSetKeys(f[3])
-					if f[1] == "insert" {
-						heap[i].Insert(conv(ks)...)
-						ref[i] = refOf(append(append([]int(nil), ref[i]...), ks...))
-					} else {
-						heap[i].Delete(conv(ks)...)
-						var nr refSet
-						for _, x := range ref[i] {
-							del := false
-							for _, k := range ks {
-								if k == x {
-									del = true
-								}
-							}
-							if !del {
-								nr = append(nr, x)
-							}
-						}
-						ref[i] = nr
-					}
-				case "has":
-					i, k := common.Atoi(f[2]), common.Atoi(f[3])
-					got := heap[i].Has(fromKey(k))
-					res = b(got)
-					if got != ref[i].has(k) {
-						fail("set-semantics", fmt.Sprintf("Has(%d) = %v on {%s}", k, got, ref[i]))
-					}
-				case "hasall", "hasany":
-					i := common.Atoi(f[2])
-					ks := parseSetKeys(f[3])
-					all, any := true, false
-					for _, k := range ks {
-						if ref[i].has(k) {
-							any = true
-						} else {
-							all = false
-						}
-					}
-					var got, exp bool
-					if f[1] == "hasall" {
-						got, exp = heap[i].HasAll(conv(ks)...), all
-					} else {
-						got, exp = heap[i].HasAny(conv(ks)...), any
-					}
-					res = b(got)
-					if got != exp {
-						fail("set-semantics", fmt.Sprintf("%s(%v) = %v on {%s}", f[1], ks, got, ref[i]))
-					}
-				case "union", "inter", "diff", "symdiff", "superset", "equal":
-					i, j := common.Atoi(f[2]), common.Atoi(f[3])
-					var r refSet
-					in := func(s refSet, k int) bool { return s.has(k) }
-					all := refOf(append(append([]int(nil), ref[i]...), ref[j]...))
-					for _, k := range all {
-						a, bb := in(ref[i], k), in(ref[j], k)
-						keep := false
-						switch f[1] {
-						case "union":
-							keep = a || bb
-						case "inter":
-							keep = a && bb
-						case "diff":
-							keep = a && !bb
-						case "symdiff":
-							keep = a != bb
-						}
-						if keep {
-							r = append(r, k)
-						}
-					}
-					switch f[1] {
-					case "union":
-						alloc(heap[i].Union(heap[j]), r)
-					case "inter":
-						alloc(heap[i].Intersection(heap[j]), r)
-					case "diff":
-						alloc(heap[i].Difference(heap[j]), r)
-					case "symdiff":
-						alloc(heap[i].SymmetricDifference(heap[j]), r)
-					case "superset":
-						got := heap[i].IsSuperset(heap[j])
-						exp := true
-						for _, k := range ref[j] {
-							if !ref[i].has(k) {
-								exp = false
-							}
-						}
-						res = b(got)
-						if got != exp {
-							fail("set-semantics", fmt.Sprintf("{%s}.IsSuperset({%s}) = %v", ref[i], ref[j], got))
-						}
-					case "equal":
-						got := heap[i].Equal(heap[j])
-						res = b(got)
-						if got != (ref[i].String() == ref[j].String()) {
-							fail("set-semantics", fmt.Sprintf("{%s}.Equal({%s}) = %v", ref[i], ref[j], got))
-						}
-					}
-				default:
-					outs[idx] = "bad-op"
-					return
-				}
-				checkRef(f[1])
-				outs[idx] = "r=" + res + " | " + dump()
-			}()
-		}
-		return outs, fails
-	}}
+func makeSetOps[K comparable, S setrun.SetI[K, sets.Empty, S]](newSet func(items ...K) S, fromKey func(int) K, toKey func(K) int, less func(a, b K) bool) setOps {
+	return setrun.Run[K, sets.Empty, S](newSet, fromKey, toKey, less)
 }
 
 var setKinds = map[string]setOps{
@@ -325,9 +34,8 @@ var setKinds = map[string]setOps{
 		}, func(a, b string) bool { return a < b }),
 }
 
-func setGen(c *common.Ctx) {
-	r := c.RNG("gen")
-	kinds := []string{"int", "int64", "byte", "string"}
+// genHistory generates one random history (without the reset line) over a universe of keys 0..universe-1
+func genHistory(r *common.RNG, universe int) []string {
 	genKeys := func(universe int) string {
 		var ks []string
 		for k := r.Intn(4); k > 0; k-- {
@@ -338,6 +46,98 @@ func setGen(c *common.Ctx) {
 		}
 		return strings.Join(ks, ";")
 	}
+	var ops []string
+	sizes := []int{} // upper bound tracking is not needed except for popany: track emptiness via a reference
+	refs := []map[int]bool{}
+	newSet := func(keys string) {
+		m := map[int]bool{}
+		for _, k := range parseSetKeys(keys) {
+			m[k] = true
+		}
+		refs = append(refs, m)
+		sizes = append(sizes, len(m))
+	}
+	k0 := genKeys(universe)
+	ops = append(ops, common.Line("set", "new", k0))
+	newSet(k0)
+	steps := 1 + r.Intn(7)
+	for s := 0; s < steps; s++ {
+		i, j := r.Intn(len(refs)), r.Intn(len(refs))
+		bin := func(op string, f func(a, b bool) bool) {
+			ops = append(ops, common.Line("set", op, common.Itoa(i), common.Itoa(j)))
+			m := map[int]bool{}
+			for k := 0; k < 8; k++ {
+				if f(refs[i][k], refs[j][k]) {
+					m[k] = true
+				}
+			}
+			refs = append(refs, m)
+		}
+		switch r.Intn(16) {
+		case 0:
+			k := genKeys(universe)
+			ops = append(ops, common.Line("set", "new", k))
+			newSet(k)
+		case 1:
+			k := genKeys(universe)
+			ops = append(ops, common.Line("set", "insert", common.Itoa(i), k))
+			for _, x := range parseSetKeys(k) {
+				refs[i][x] = true
+			}
+		case 2:
+			k := genKeys(universe)
+			ops = append(ops, common.Line("set", "delete", common.Itoa(i), k))
+			for _, x := range parseSetKeys(k) {
+				delete(refs[i], x)
+			}
+		case 3:
+			ops = append(ops, common.Line("set", "has", common.Itoa(i), common.Itoa(r.Intn(universe))))
+		case 4:
+			ops = append(ops, common.Line("set", "hasall", common.Itoa(i), genKeys(universe)))
+		case 5:
+			ops = append(ops, common.Line("set", "hasany", common.Itoa(i), genKeys(universe)))
+		case 6:
+			ops = append(ops, common.Line("set", "clone", common.Itoa(i)))
+			m := map[int]bool{}
+			for k, v := range refs[i] {
+				m[k] = v
+			}
+			refs = append(refs, m)
+		case 7:
+			bin("union", func(a, b bool) bool { return a || b })
+		case 8:
+			bin("inter", func(a, b bool) bool { return a && b })
+		case 9:
+			bin("diff", func(a, b bool) bool { return a && !b })
+		case 10:
+			bin("symdiff", func(a, b bool) bool { return a != b })
+		case 11:
+			ops = append(ops, common.Line("set", "superset", common.Itoa(i), common.Itoa(j)))
+		case 12:
+			ops = append(ops, common.Line("set", "equal", common.Itoa(i), common.Itoa(j)))
+		case 13:
+			ops = append(ops, common.Line("set", "list", common.Itoa(i)))
+		case 14:
+			ops = append(ops, common.Line("set", "len", common.Itoa(i)))
+		case 15:
+			cnt := 0
+			for _, v := range refs[i] {
+				if v {
+					cnt++
+				}
+			}
+			if cnt <= 1 { // which member is popped is the runtime's choice: only deterministic cases go to the model
+				ops = append(ops, common.Line("set", "popany", common.Itoa(i)))
+				refs[i] = map[int]bool{}
+			}
+		}
+	}
+	return ops
+}
+
+func setGen(c *common.Ctx) {
+	r := c.RNG("gen")
+	kinds := []string{"int", "int64", "byte", "string"}
 	emit := func(kind string, ops []string, feats []string) {
 		lines := []string{common.Line("set", "reset", kind)}
 		lines = append(lines, ops...)
@@ -346,93 +146,7 @@ func setGen(c *common.Ctx) {
 	n := c.Scale(20000, 300000)
 	for it := 0; it < n; it++ {
 		kind := kinds[r.Intn(4)]
-		universe := 3 + r.Intn(4)
-		var ops []string
-		sizes := []int{} // upper bound tracking is not needed except for popany: track emptiness via a reference
-		refs := []map[int]bool{}
-		newSet := func(keys string) {
-			m := map[int]bool{}
-			for _, k := range parseSetKeys(keys) {
-				m[k] = true
-			}
-			refs = append(refs, m)
-			sizes = append(sizes, len(m))
-		}
-		k0 := genKeys(universe)
-		ops = append(ops, common.Line("set", "new", k0))
-		newSet(k0)
-		steps := 1 + r.Intn(7)
-		for s := 0; s < steps; s++ {
-			i, j := r.Intn(len(refs)), r.Intn(len(refs))
-			bin := func(op string, f func(a, b bool) bool) {
-				ops = append(ops, common.Line("set", op, common.Itoa(i), common.Itoa(j)))
-				m := map[int]bool{}
-				for k := 0; k < 8; k++ {
-					if f(refs[i][k], refs[j][k]) {
-						m[k] = true
-					}
-				}
-				refs = append(refs, m)
-			}
-			switch r.Intn(16) {
-			case 0:
-				k := genKeys(universe)
-				ops = append(ops, common.Line("set", "new", k))
-				newSet(k)
-			case 1:
-				k := genKeys(universe)
-				ops = append(ops, common.Line("set", "insert", common.Itoa(i), k))
-				for _, x := range parseSetKeys(k) {
-					refs[i][x] = true
-				}
-			case 2:
-				k := genKeys(universe)
-				ops = append(ops, common.Line("set", "delete", common.Itoa(i), k))
-				for _, x := range parseSetKeys(k) {
-					delete(refs[i], x)
-				}
-			case 3:
-				ops = append(ops, common.Line("set", "has", common.Itoa(i), common.Itoa(r.Intn(universe))))
-			case 4:
-				ops = append(ops, common.Line("set", "hasall", common.Itoa(i), genKeys(universe)))
-			case 5:
-				ops = append(ops, common.Line("set", "hasany", common.Itoa(i), genKeys(universe)))
-			case 6:
-				ops = append(ops, common.Line("set", "clone", common.Itoa(i)))
-				m := map[int]bool{}
-				for k, v := range refs[i] {
-					m[k] = v
-				}
-				refs = append(refs, m)
-			case 7:
-				bin("union", func(a, b bool) bool { return a || b })
-			case 8:
-				bin("inter", func(a, b bool) bool { return a && b })
-			case 9:
-				bin("diff", func(a, b bool) bool { return a && !b })
-			case 10:
-				bin("symdiff", func(a, b bool) bool { return a != b })
-			case 11:
-				ops = append(ops, common.Line("set", "superset", common.Itoa(i), common.Itoa(j)))
-			case 12:
-				ops = append(ops, common.Line("set", "equal", common.Itoa(i), common.Itoa(j)))
-			case 13:
-				ops = append(ops, common.Line("set", "list", common.Itoa(i)))
-			case 14:
-				ops = append(ops, common.Line("set", "len", common.Itoa(i)))
-			case 15:
-				cnt := 0
-				for _, v := range refs[i] {
-					if v {
-						cnt++
-					}
-				}
-				if cnt <= 1 { // which member is popped is the runtime's choice: only deterministic cases go to the model
-					ops = append(ops, common.Line("set", "popany", common.Itoa(i)))
-					refs[i] = map[int]bool{}
-				}
-			}
-		}
+		ops := genHistory(r, 3+r.Intn(4))
 		emit(kind, ops, nil)
 		if it%10 == 0 {
 			// PopAny on larger sets: judged by the oracle only (the popped member is not determined)
@@ -440,6 +154,14 @@ func setGen(c *common.Ctx) {
 			c.Case(lines, common.Meta{Nontrivial: true, NoModel: true, Features: []string{"popany-oracle-only", "kind:" + kind}})
 		}
 	}
+	// sets regenerated from the current templates by the real set-gen (child process), incl. struct keys
+	rr := c.RNG("regen")
+	var batch []common.PCase
+	for p, np := 0, c.Scale(6, 60); p < np; p++ {
+		lines, feats := genRegenCase(rr, c.Scale(150, 400))
+		batch = append(batch, common.PCase{Lines: lines, Meta: common.Meta{Nontrivial: true, Features: feats}})
+	}
+	c.Cases(batch, 6)
 	if c.Tier == "thorough" {
 		// all operation sequences of length <= 4 over a 3-element universe, from two fixed sets
 		base := []string{common.Line("set", "new", "0;1"), common.Line("set", "new", "1;2")}
@@ -470,8 +192,16 @@ func init() {
 		"set": {
 			Gen: setGen,
 			Exec: func(lines []string) ([]string, []common.Failure) {
+				if common.Fields(lines[0])[1] == "regen" {
+					return regenExec(lines)
+				}
 				kind := common.Fields(lines[0])[2]
-				return setKinds[kind].run(lines)
+				outs, fs := setKinds[kind].Run(lines)
+				var fails []common.Failure
+				for _, f := range fs {
+					fails = append(fails, common.Failure{Sig: f.Sig, What: f.What})
+				}
+				return outs, fails
 			},
 		},
 		"flat": {Gen: flatGen, Exec: flatExec},
